@@ -113,6 +113,7 @@ def run_family_check(ctx, pid, n_quick, n_thorough, schedules_quick=1, schedules
     sched = schedules_quick if ctx.quick else schedules_thorough
     binary = ctx.binary()
     items = make_items(rng, profile, n, sched)
+    n_generated = len(items)
     if extra_items:
         items += extra_items(rng)
     findings, stats = engine_check.run_family(binary, ctx.work, items)
@@ -120,6 +121,10 @@ def run_family_check(ctx, pid, n_quick, n_thorough, schedules_quick=1, schedules
         ctx.inconclusive(m)
     for f in findings:
         it = items[f['item']]
+        if f['prop'] == 'GEN' and f['item'] >= n_generated and not it.get('may_be_rejected'):
+            # a hand-written scenario is a well-formed workflow by construction: when the engine refuses it, the scenario
+            # checked nothing - that must not pass silently (the engine, or the scenario, changed)
+            ctx.inconclusive('hand-written scenario #%d was rejected at preparation, so it exercised nothing: %s' % (f['item'] - n_generated, f['detail'][:300]))
         rp = {'kind': 'scenario', 'item': {k: it[k] for k in ('wf', 'oc', 'script', 'input', 'schedule', 'extra') if k in it},
               'want': it.get('_want'), 'got': it.get('_got'), 'line': f.get('line')}
         if it.get('subwfs'):
